@@ -29,6 +29,8 @@ struct GateState {
     pos: usize,
     trace: Fp,
     switches: u64,
+    /// preemptions at the RngCore seam, i.e. in the middle of a call of a bnum entry point
+    mid_call: u64,
     points: u64,
 }
 
@@ -66,7 +68,7 @@ impl GateState {
 
 impl Gate {
     pub fn new(n: usize, sched: Vec<u8>) -> Gate {
-        let mut st = GateState { current: 0, alive: vec![true; n], sched, pos: 0, trace: Fp::new(), switches: 0, points: 0 };
+        let mut st = GateState { current: 0, alive: vec![true; n], sched, pos: 0, trace: Fp::new(), switches: 0, mid_call: 0, points: 0 };
         let first = st.pick(true).unwrap_or(0);
         st.current = first;
         st.switches = 0;
@@ -82,10 +84,13 @@ impl Gate {
     }
 
     /// a scheduling point: hand the baton to whichever task the schedule names (possibly this one) and wait for it
-    pub fn yield_point(&self, me: usize) {
+    pub fn yield_point(&self, me: usize, inside_call: bool) {
         let mut st = self.m.lock().unwrap();
         debug_assert_eq!(st.current, me);
         if let Some(next) = st.pick(false) {
+            if next != me && inside_call {
+                st.mid_call += 1;
+            }
             st.current = next;
         }
         if st.current != me {
@@ -108,9 +113,9 @@ impl Gate {
         self.cv.notify_all();
     }
 
-    fn summary(&self) -> (u64, u64, u64) {
+    fn summary(&self) -> (u64, u64, u64, u64) {
         let st = self.m.lock().unwrap();
-        (st.trace.0, st.switches, st.points)
+        (st.trace.0, st.switches, st.points, st.mid_call)
     }
 }
 
@@ -167,7 +172,7 @@ fn exec_task(spec: &RunSpec, ti: usize, task: &Task, ty: &dyn TyObj, gate: Optio
     let signed = ty.signed();
     let yield_here = |g: &Option<Arc<Gate>>| {
         if let Some(g) = g {
-            g.yield_point(ti);
+            g.yield_point(ti, false);
         }
     };
     for (oi, op) in task.ops.iter().enumerate() {
@@ -374,7 +379,7 @@ pub fn run_tasks(spec: &RunSpec, want_log: bool) -> RunResult {
     for ti in (0..n).rev() {
         c[ti] = Some(exec_task(spec, ti, &spec.tasks[ti], tys[ti], None, false));
     }
-    let (trace, switches, points) = gate.summary();
+    let (trace, switches, points, mid_call) = gate.summary();
 
     for ti in 0..n {
         let ra = &a[ti];
@@ -428,10 +433,11 @@ pub fn run_tasks(spec: &RunSpec, want_log: bool) -> RunResult {
     *counters.entry("op_tasks_run").or_insert(0) += 1;
     *counters.entry("tasks_scheduling_points").or_insert(0) += points;
     *counters.entry("tasks_context_switches").or_insert(0) += switches;
+    *counters.entry("tasks_preemptions_inside_a_call").or_insert(0) += mid_call;
     if !viol.iter().any(|v| v.class == "schedule_dependence" || v.class == "order_dependence") {
         *counters.entry("probe_tasks_schedule_independent").or_insert(0) += 1;
     }
-    if switches > 0 {
+    if mid_call > 0 {
         *counters.entry("probe_tasks_interleaved_mid_call").or_insert(0) += 1;
     }
     let mut distinct_types: Vec<&str> = spec.tasks.iter().map(|t| t.ty.as_str()).collect();
